@@ -273,6 +273,15 @@ func (b *Batch) flushStagedAndUpdateFile() error {
 
 // 刷新缓存
 func (b *Batch) flushStaged() error {
+	// 暂存数据的容量检查只保证其不超过单个数据文件的容量上限
+	// 如果当前活跃文件的剩余容量不足以容纳暂存数据, 需先切换活跃文件, 保证数据文件不超过容量上限
+	if len(b.staged) > 0 && b.db.activeFile.Size() > 0 &&
+		b.db.activeFile.Size()+b.cachedDataSize+maxFinRecord > b.db.options.DataFileSize {
+		if err := b.db.sync(); err != nil {
+			return err
+		}
+	}
+
 	// 顺序遍历暂存数据依次追加磁盘
 	for _, record := range b.staged {
 		record.BatchID = uint64(b.batchID)
@@ -297,6 +306,8 @@ func (b *Batch) flushStaged() error {
 
 	// 追加操作全部完成后, 更新索引
 	for i, record := range b.staged {
+		// 维护总数据量, 与无效数据量保持一致
+		b.db.totalSize += int64(dataPos[i].Size)
 		var pos *datafile.DataPos
 		if record.Type == datafile.LogRecordDeleted {
 			pos = b.db.index.Delete(record.Key)
